@@ -67,7 +67,7 @@ static int run_config(vp_rng_t* r, int tscf, int udp, int fd, int count, int pac
         _exit(3);
     }
     close(can[1]); close(net[1]);
-    struct timeval tv = { 10, 0 }; setsockopt(net[0], SOL_SOCKET, SO_RCVTIMEO, &tv, sizeof tv);
+    struct timeval tv = { 120, 0 }; setsockopt(net[0], SOL_SOCKET, SO_RCVTIMEO, &tv, sizeof tv);
     tunl_config(udp, fd);
     int rc = 0;
     uint32_t serial = 0;
@@ -103,6 +103,9 @@ static int run_config(vp_rng_t* r, int tscf, int udp, int fd, int count, int pac
                 if (in[i].fd.len >= 4) memcpy(in[i].fd.data, &serial, 4);
                 if (send(can[0], &in[i].fd, sizeof(struct canfd_frame), 0) < 0) { rc = 2; break; }
             } else {
+                /* bytes of struct can_frame a talker has no business with: padding, reserved, and the raw DLC 9..15 a controller in
+                 * CAN_CTRLMODE_CC_LEN8_DLC mode reports next to len == 8 */
+                { uint8_t junk[3]; vp_rng_fill(r, junk, 3); memcpy((uint8_t*)&in[i].cc + 5, junk, 3); }
                 in[i].cc.can_id = id; in[i].cc.len = lenmode == 1 ? 0 : fullpkt ? 8 : (uint8_t)vp_rng_below(r, 9);
                 if (rep_prev) in[i].cc.len = prev_len;
                 vp_rng_fill(r, in[i].cc.data, in[i].cc.len);
